@@ -756,22 +756,43 @@ class DataFrameInternal:
 
         :type other: DataFrameInternal
         """
+        # The condition sees the columns of both sides, whatever the join type keeps
+        both_schema = merge_schemas(self.bound_schema, other.bound_schema, INNER_JOIN)
+        left_names = self.bound_schema.names
+        right_names = other.bound_schema.names
+        left_rows = self.rdd().collect()
+        right_rows = other.rdd().collect()
 
-        def condition(couple):
-            left, right = couple
-            merged_rows = merge_rows(left, right)
-            condition_value = on.eval(merged_rows, schema=new_schema)
-            return condition_value
+        def matches(left, right):
+            return on.eval(merge_rows(left, right), schema=both_schema)
 
-        joined_rdd = self.rdd().cartesian(other.rdd()).filter(condition)
+        def null_row(names):
+            return create_row(names, [None for _ in names])
 
-        def format_output(entry):
-            left, right = entry
+        output = []
+        matched_right = set()
+        for left in left_rows:
+            partners = [i for i, right in enumerate(right_rows) if matches(left, right)]
+            matched_right.update(partners)
+            if how == LEFT_SEMI_JOIN:
+                if partners:
+                    output.append(left)
+            elif how == LEFT_ANTI_JOIN:
+                if not partners:
+                    output.append(left)
+            elif partners:
+                output.extend(merge_rows(left, right_rows[i]) for i in partners)
+            elif how in (LEFT_JOIN, FULL_JOIN):
+                output.append(merge_rows(left, null_row(right_names)))
 
-            return merge_rows(left, right)  # , self.bound_schema, other.bound_schema, how)
+        if how in (RIGHT_JOIN, FULL_JOIN):
+            output.extend(
+                merge_rows(null_row(left_names), right)
+                for i, right in enumerate(right_rows)
+                if i not in matched_right
+            )
 
-        output_rdd = joined_rdd.map(format_output)
-        return output_rdd
+        return self._sc.parallelize(output)
 
     def cross_join(self, other):
         """
